@@ -69,7 +69,37 @@ func exhaustiveCampaign(o *hlib.Opts, rn *runner, w *world) {
 			rn.runCase(v, db, reqs, "exhaustive")
 		}
 	}
+	// Address product (plain DNS, one fixture, every bind layout): every local
+	// and remote address of the pools, in every spelling (IPv4-mapped, zoned),
+	// with and without a CPE-ID option, through every early exit of Wrap.
+	var areqs []*request
+	for _, l := range localAddrs {
+		for _, rm := range append(append([]string{}, remoteIPs...), "203.0.113.66") {
+			for _, e := range edns[:2] {
+				for g := 0; g < 4; g++ {
+					q := &request{ui: "-", opt: e.opt, edns: e.opts, local: netip.MustParseAddrPort(l), rip: netip.MustParseAddr(rm), wrapped: true}
+					switch g {
+					case 1:
+						q.port0 = true
+					case 2:
+						q.qname = gblockedName
+					case 3:
+						q.qname = pblockName("prof1")
+					}
+					areqs = append(areqs, q)
+				}
+			}
+		}
+	}
+	for _, v := range w.variants {
+		if v.proto == agd.ProtoDNS && !v.profilesOff && len(v.domains) == 1 && v.domains[0] == "d.dns.example" {
+			for _, db := range dbs {
+				rn.runCase(v, db, areqs, "exhaustive-addresses")
+			}
+		}
+	}
+	rn.r.Count("exhaustive.address_product_done")
 	rn.r.Exhaustive = true
 	rn.r.Count("exhaustive.product_done")
-	rn.r.Notes = append(rn.r.Notes, "thorough tier enumerated the full product of 6 userinfo x 5 paths x 6 server names x 4 EDNS x 3 local x 2 remote values over every server variant (bind layouts 0,2,3; with and without profiles) and 12 database states")
+	rn.r.Notes = append(rn.r.Notes, "thorough tier enumerated the full product of 6 userinfo x 5 paths x 6 server names x 4 EDNS x 3 local x 2 remote values over every server variant (bind layouts 0,2,3; with and without profiles) and 12 database states, and the product of all 11 local x 10 remote address spellings x 2 EDNS x 4 Wrap exits over the plain-DNS variants of one fixture")
 }
